@@ -424,3 +424,19 @@ func vh_C16_DoubleScalarmultVartime_step() {
 	vAssert(id.a.Eq(a.Mul(vZi(2)).Add(vZi(int(d1)))), "coefficient of P: 2 a + d1")
 	vAssert(id.b.Eq(b.Mul(vZi(2)).Add(vZi(int(d2)))), "coefficient of B: 2 b + d2")
 }
+
+// C15 / C13: the variable-time mixed additions only READ their precomputed operand.  The base-point operand is an
+// entry of the package-level table nielsSlidingMultiples, shared by all goroutines: any store to it (even one
+// that is undone before returning) is logged as a store to a package-level object and fails the check.
+func vh_C15_table_operands_read_only() {
+	vCutField()
+	k := [...]int{0, 5, 31}[vCase(0, 2)]
+	sign := uint8(vCase(0, 1))
+	p, _ := vInPoint("p")
+	var t ge25519p1p1
+	nielsAdd2P1p1Vartime(&t, &p, &nielsSlidingMultiples[k], sign)
+	var r Ge25519
+	nielsAdd2(&r, &nielsSlidingMultiples[k])
+	vReach("mixed additions with a table operand executed")
+	vAssert(!vStoresToCaller(), "no store to the table entry")
+}
